@@ -382,6 +382,13 @@ def xlsb_bytes(rng, wb):
              "dim": d_rec,
              "pre2": [], "begin": (fr(0x91, b""), b""), "items": items, "end": (fr(0x92, b""), b""), "trailer": b""}
         sheets.append((sh["name"][:31], xlsbgen.enc_layout(L)))
+    if len(sheets) >= 2 and rng.random() < 0.3:
+        # a sheet whose part cannot be read as a worksheet (no BrtBeginSheetData: what a chart sheet
+        # part looks like to the cell reader), placed BEFORE a readable one: reading it fails, the
+        # sheets after it must still be paired with their own cells
+        k = rng.randrange(0, len(sheets) - 1)
+        stub = b"".join(xlsbgen.frame(xlsbgen.min_fr(rid, b""), rid, b"") for rid in (0x81, 0x82))
+        sheets[k] = (sheets[k][0], stub)
     env = {"fmts": [0], "xf_ids": [0], "customs": [], "d1904": False, "strings": []}
     return xlsbgen.package_bytes(sheets, env, sst=None, compress=rng.random() < 0.6)
 
